@@ -49,10 +49,11 @@ Definition run_cells (c : cfg) (r : crun) : list cell :=
    no combining character reaches into the run before: the row is the concatenation of its runs *)
 Definition row_cells (c : cfg) (row : crow) : list cell := flat_map (run_cells c) row.
 (* the cells of ANY row of runs: combining characters join the last character painted, also across runs;
-   C0 control characters are painted as '?' (equal to row_cells on the rows the theorems speak about) *)
+   C0 control characters are dropped under UTF-8 and painted as '?' otherwise (equal to row_cells on the
+   rows the theorems speak about) *)
 Definition row_cells_threaded (c : cfg) (row : crow) : list cell :=
   fold_left (fun P (r : crun) => let '(a, cs, text) := r in
-               paint_text P cs (attr_vis c a) (if cs =? 2 then text else map trans_chr text)) row [].
+               paint_text P cs (attr_vis c a) (if cs =? 2 then text else trans_text (g_utf8 c) text)) row [].
 
 (* ---------- visual equality of an expected cell e and a terminal cell g ---------- *)
 Definition vis_eq (e g : cell) : Prop :=
